@@ -1,14 +1,16 @@
 // Command mpxscen runs black-box concurrency scenarios against the mpx package (build tag `verif`
 // enables the seeded yield hooks inside the library).
 //
-//	mpxscen <scenario> <seed> <tier> [only=<run>] [skip=<digits>]
+//	mpxscen <scenario> <seed> <tier> [only=<run>] [skip=<digits>] [verbose]
 //
 // only=<run> executes just that run index (same derived seed as in a full invocation); skip=<digits>
-// removes the listed server behaviours from scenario c06 (for example skip=5).
+// removes the listed server behaviours from scenario c06 (for example skip=5); verbose adds
+// `<scenario> detail ...` lines after a run with violations.
 //
 // Scenarios: c06 (ending one channel never disturbs the connection or other channels) and c03
 // (channels deliver messages exactly once, in order, uncorrupted). Tier is quick or thorough.
-// Every output line starts with the scenario name and consists of key=value tokens; a line that
+// The extra scenario wake is a deterministic diagnostic for the lost wake-up of a pending message
+// (see wake.go). Every output line starts with the scenario name and consists of key=value tokens; a line that
 // demonstrates a violation ends with ` VIOL <reason>`. The process exits 0 unless it cannot start.
 package main
 
@@ -28,6 +30,7 @@ type scenario struct {
 	thorough bool
 	only     int    // run index to execute, -1 = all
 	skip     string // c06: server behaviours (digits) that are not used
+	verbose  bool   // print detail lines for runs with violations
 	start    time.Time
 	budget   time.Duration
 	runs     int
@@ -52,6 +55,14 @@ func (s *scenario) exhausted() bool {
 	return time.Since(s.start)+reserve+time.Second > s.budget
 }
 
+// stallLimit is how long a run may go without any successful send or receive.
+func (s *scenario) stallLimit() time.Duration {
+	if s.thorough {
+		return 3 * time.Second
+	}
+	return 2 * time.Second
+}
+
 // runTimeout is the timeout of the next run: the tier's default, cut down so that even a run that
 // hangs ends within the budget.
 func (s *scenario) runTimeout(quick, thorough time.Duration) time.Duration {
@@ -70,7 +81,7 @@ func (s *scenario) summary() {
 }
 
 func usage() {
-	fmt.Fprintln(os.Stderr, "usage: mpxscen <c06|c03> <seed> <quick|thorough> [only=<run>] [skip=<digits>]")
+	fmt.Fprintln(os.Stderr, "usage: mpxscen <c06|c03|wake> <seed> <quick|thorough> [only=<run>] [skip=<digits>] [verbose]")
 	os.Exit(2)
 }
 
@@ -103,6 +114,9 @@ func main() {
 		if v, ok := strings.CutPrefix(a, "skip="); ok {
 			s.skip = v
 		}
+		if a == "verbose" {
+			s.verbose = true
+		}
 	}
 
 	switch s.name {
@@ -110,6 +124,8 @@ func main() {
 		runC06(s, seed)
 	case "c03":
 		runC03(s, seed)
+	case "wake":
+		runWake(s, seed)
 	default:
 		usage()
 	}
